@@ -131,13 +131,14 @@ def run_entry(en, tier):
     inc = [o for o in obs if o["verdict"] == "inconclusive"]
     if en.info is not None:
         extra = []
-        known = set(o["id"].split(".")[-1] for o in obs)
+        pfx = "C18.%s." % en.name
+        known = set(o["id"][len(pfx):] for o in obs)
         for o in run_entry(en.info, tier):
-            site = o["id"].split(".")[-1]
+            site = o["id"][len(pfx):]
             if o["verdict"] == "violated" and site not in known:
                 extra.append("%s `%s` [replayed: %s]" % (site, (o["cex"] or {}).get("message"), str((o["replay"] or {}).get("real_output"))[:100]))
-        summary += "; panic sites that need a configuration REJECTED by validate (unreachable through StarkProof::verify, not counted): %s" % (
-            extra or "none")
+        summary += "; panic sites that need inputs which validate / the preceding verification steps reject - precondition dropped: %s - " \
+                   "(unreachable through StarkProof::verify, not counted): %s" % (en.info.pre, extra or "none")
     if errors:
         obs.append(finish(base, "inconclusive", None, detail="; ".join(errors[:4]) + "; " + summary, solver="-"))
     elif not viol and not inc:
